@@ -45,7 +45,7 @@ enum Node {
     /// `@debug fN(arg)`: the function's own deliveries come first, then the inspected result
     DebugOfCall { tag: u32, func: usize, arg: i64 },
     /// include of a mixin that is defined in an imported file (entry only, after the import)
-    IncludeForeign { file: usize, mixin: usize, arg: i64 },
+    IncludeForeign { file: usize, mixin: usize, arg: i64, content: Option<Vec<Node>> },
 }
 
 #[derive(Clone, Debug)]
@@ -359,7 +359,15 @@ impl Printer {
                     self.lines.insert(*tag, self.line + 1);
                     self.stmt(indent, &format!("@debug {}({})", f.funcs[*func].name, arg));
                 }
-                Node::IncludeForeign { file, mixin, arg } => self.stmt(indent, &format!("@include {}({})", all[*file].mixins[*mixin].name, arg)),
+                Node::IncludeForeign { file, mixin, arg, content } => match content {
+                    None => self.stmt(indent, &format!("@include {}({})", all[*file].mixins[*mixin].name, arg)),
+                    Some(c) => {
+                        // the block is written (and located) in this file, the mixin lives in another
+                        self.open(indent, &format!("@include {}({})", all[*file].mixins[*mixin].name, arg));
+                        self.block(indent + 1, c, f, all);
+                        self.close(indent);
+                    }
+                },
             }
         }
     }
@@ -523,12 +531,24 @@ impl<'a> Exec<'a> {
                     }
                     self.out.push(Expected { kind: "debug".into(), file: self.files[fi].path.clone(), line: self.lines[fi][tag], msg: arg.to_string() });
                 }
-                Node::IncludeForeign { file, mixin, arg } => {
-                    // the mixin's directives live in the file that defines it
+                Node::IncludeForeign { file, mixin, arg, content: c } => {
+                    // the mixin's directives live in the file that defines it, the content block's in this one
                     let m = &self.files[*file].mixins[*mixin];
                     let mut menv = BTreeMap::new();
                     menv.insert("a".to_string(), *arg);
-                    if !self.run(*file, &m.body, &mut menv, None) {
+                    let at = m.content_at.map(|a| a.min(m.body.len())).unwrap_or(m.body.len());
+                    if !self.run(*file, &m.body[..at], &mut menv, None) {
+                        return false;
+                    }
+                    if m.content_at.is_some() {
+                        if let Some(cb) = c {
+                            let mut cenv = env.clone();
+                            if !self.run(fi, cb, &mut cenv, None) {
+                                return false;
+                            }
+                        }
+                    }
+                    if !self.run(*file, &m.body[at..], &mut menv, None) {
                         return false;
                     }
                 }
@@ -637,7 +657,17 @@ pub fn gen_script(rng: &mut Rng, root: &str) -> Script {
             if let Node::Import { file } = n {
                 let nm = files[*file].mixins.len();
                 if nm > 0 && g.rng.chance(0.5) && !extra.iter().any(|(_, e)| matches!(e, Node::IncludeForeign { file: f2, .. } if f2 == file)) {
-                    extra.push((pos + 1, Node::IncludeForeign { file: *file, mixin: g.rng.usize_below(nm), arg: g.rng.range(1, 9) as i64 }));
+                    let mi = g.rng.usize_below(nm);
+                    let content = if files[*file].mixins[mi].content_at.is_some() && g.rng.chance(0.7) {
+                        g.budget = 3;
+                        g.salt = "c";
+                        let c = g.block(Where::Content, 2, &[], 0, 0, &[], false);
+                        g.salt = "";
+                        Some(c)
+                    } else {
+                        None
+                    };
+                    extra.push((pos + 1, Node::IncludeForeign { file: *file, mixin: mi, arg: g.rng.range(1, 9) as i64, content }));
                 }
             }
         }
@@ -1000,6 +1030,25 @@ impl Engine for LoggerEngine {
                         let mut j = sc.job.clone();
                         j.faults = vec![Fault::Vanish { at: ev.k + 1, target: Some(ev.path.clone()) }];
                         go(&j, &sc.expected, &sc.error, "prefix", &mut res, false);
+                    }
+                }
+                // a file that is imported several times CHANGES between two reads (an editor saved
+                // it): whatever is reported afterwards must be located in the text that was delivered
+                {
+                    let reads: Vec<&crate::simfs::FsEvent> = r0.fs.iter().filter(|e| e.op == FsOp::Read).collect();
+                    for (i, ev) in reads.iter().enumerate() {
+                        if reads[..i].iter().any(|p| p.norm == ev.norm) {
+                            if let Some((_, old)) = sc.job.files.iter().find(|(p, _)| normalize(&sc.job.cwd, p) == ev.norm) {
+                                let sass = ev.norm.ends_with(".sass");
+                                let mut newb = old.clone();
+                                newb.extend_from_slice(if sass { b"\n@error \"changed-on-second-read\"\n" } else { b"\n@error \"changed-on-second-read\";\n" });
+                                let mut j = sc.job.clone();
+                                j.faults = vec![Fault::Appear { at: ev.k, path: ev.norm.clone(), bytes: newb }];
+                                go(&j, &sc.expected, &sc.error, "located", &mut res, true);
+                                res.bump("probe.file_changed_between_two_imports", 1);
+                            }
+                            break;
+                        }
                     }
                 }
                 // corrupted text: only the error-location / rendering / routing checks apply
